@@ -204,7 +204,7 @@ func c07(c *core.Ctx) {
 	}
 
 	// ---------------------------------------------------------------- R2
-	if c.Rule("R2", "truncation is an error: an io.EOF from a payload read never leaves the server stream's RecvMsg (normalised to ErrUnexpectedEOF); a clean EOF at a preface stays io.EOF; client part: C02/R1", 1) {
+	if c.Rule("R2", "truncation is an error: an io.EOF from a payload read never leaves the server stream's RecvMsg (normalised to ErrUnexpectedEOF); a clean EOF at a preface stays io.EOF; client: every exit of the response reader established an error, a non-OK code or a decoded trailer, an unnormalised io.EOF never becomes the terminal error, and after the single-response probe only io.EOF is success", 8) {
 		t := core.NewTaint(eofSpec(false, false), fns)
 		n := 0
 		for _, nt := range streamTypes(p, "ServerStream", "RecvMsg") {
@@ -226,6 +226,13 @@ func c07(c *core.Ctx) {
 		}
 		if n == 0 {
 			c.Missing("httpgrpc server stream RecvMsg")
+		}
+		// client part: the response reader's exits and the terminal-error normalisation (obligations shared
+		// with C02/R1), and the single-response probe, where a terminal transport error surfaces (C08/R1)
+		c02HttpEOF(c)
+		c02TrailerIffNegative(c)
+		if singleResponseProbes(c) < 2 {
+			c.Missing("client stream types with a single-response probe")
 		}
 		c.EndRule()
 	}
